@@ -232,9 +232,12 @@ def problems(draw, tier="quick"):
             }
         )
     k = draw(st.sampled_from([2, 3, 1, 2, 3, 4]))
-    capkind = draw(st.sampled_from(["inf", "small", "mixed", "inf", "small"]))
+    capkind = draw(st.sampled_from(["tight", "inf", "small", "tight", "mixed", "inf", "tight"]))
     if capkind == "inf":
         caps = [None] * k
+    elif capkind == "tight":  # the fleet cannot carry everybody: insertion order decides who stays behind
+        total = sum(c["demand"] * c["req"] for c in custs)
+        caps = [max(1, total // (k + draw(st.integers(0, 1))))] * k
     elif capkind == "small":
         caps = [draw(st.integers(1, 8))] * k
     else:
@@ -669,8 +672,14 @@ class VRPExec:
             new = ctx.call(fn, self.state, rng)
         else:
             raise AssertionError(name)
+        stale = set()
+        if name == "sync_aware_insertion":  # label only: multi-vehicle customers that were sync-placed earlier, then removed
+            stale = {c for c in M.multi if c not in self.routed and c in getattr(self.state, "sync_assignments", {})}
         self.state = new
         info = check_state(M, new, name)
+        if stale - info["routed"]:
+            ctx.label("sync-insertion-fails-for-a-customer-it-placed-earlier")
+            ctx.count("sync-insertion-fails-for-a-customer-it-placed-earlier")
         before, after = self.routed, info["routed"]
         self.routed = after
         ctx.count("steps:" + name)
@@ -698,7 +707,7 @@ def run_vrp_history(hist, ctx):
 
 def vrp_machine(ctx, tier):
     Base = make_hist_machine()
-    seeds = st.integers(0, 2**32 - 1)
+    seeds = st.integers(0, 2**32 - 4)
     degree = st.sampled_from(DEGREES)
 
     def has_routed(self):
@@ -759,6 +768,27 @@ def vrp_machine(ctx, tier):
         def sync_aware_insertion(self, seed):
             self.step("sync_aware_insertion", seed=seed)
 
+        # Generator device, not a tenth operator: one ALNS-like round emitted as three ordinary history steps
+        # (non-sync removal, greedy/regret repair, sync-aware repair).  It makes the chain "customer placed by
+        # sync_aware_insertion -> removed by another operator -> vehicles refilled -> sync_aware_insertion again" frequent.
+        @precondition(lambda self: has_routed(self) and len(self.hist) <= 27)
+        @rule(
+            seed=seeds,
+            removal=st.sampled_from(["random_removal", "worst_removal", "related_removal", "route_removal"]),
+            degree=st.sampled_from([0.25, 0.5, 0.3, 0.75]),
+            repair=st.sampled_from(["greedy_insertion", "regret_insertion"]),
+        )
+        def alns_round(self, seed, removal, degree, repair):
+            if removal == "route_removal":
+                self.step(removal, seed=seed, n_routes=1)
+            else:
+                self.step(removal, seed=seed, degree=degree)
+            if repair == "regret_insertion":
+                self.step(repair, seed=seed + 1, k=2)
+            else:
+                self.step(repair, seed=seed + 1)
+            self.step("sync_aware_insertion", seed=seed + 2)
+
         @precondition(lambda self: self._skip or self.ex.state is not None)
         @rule(weights=st.one_of(st.none(), weight_sets(True), weight_sets(True)))
         def vrp_objective(self, weights):
@@ -771,5 +801,5 @@ SUBS = [
     Sub("job_shop", run_job_shop, strategy=lambda tier: jobshops(tier), quick=1000, thorough=2500, workers_quick=4, wall_thorough=420.0),
     Sub("vrptw_solve", run_vrptw_solve, strategy=lambda tier: solve_cases(tier), quick=250, thorough=500, workers_quick=4, wall_quick=80.0, wall_thorough=420.0),
     Sub("vrptw_boundary", run_vrptw_boundary, strategy=lambda tier: boundary_cases(tier), quick=130, thorough=500, workers_quick=4, wall_quick=80.0, wall_thorough=420.0),
-    Sub("vrp_operators", run_vrp_history, machine=vrp_machine, quick=300, thorough=1000, wall_thorough=420.0, steps_quick=30, steps_thorough=30, workers_quick=4, wall_quick=80.0),
+    Sub("vrp_operators", run_vrp_history, machine=vrp_machine, quick=500, thorough=1200, wall_thorough=420.0, steps_quick=30, steps_thorough=30, workers_quick=4, wall_quick=80.0),
 ]
